@@ -25,3 +25,23 @@ for meta in sorted(glob.glob(f"{V}/seeded/*/meta.json")):
     if "status_on_current_tree" in m:
         det = "obsolete on the current tree (equivalent mutant after a fix); caught before"
     print(f"| {m['seed']} | {m['property']} | {(m.get('summary') or '')[:160]} | {(m.get('needs_to_manifest') or '')[:160]} | {det or 'MISSED'}{' [not detected by: ' + miss + ']' if miss and det else ''} |")
+
+print()
+print("Open known findings (from known_findings/*.json):")
+print()
+print("| property | signature | what |")
+print("|---|---|---|")
+for pid in ALL:
+    pth = f"{V}/known_findings/{pid}.json"
+    if not os.path.exists(pth):
+        continue
+    for f in json.load(open(pth))["findings"]:
+        if f.get("status") == "open":
+            print(f"| {pid} | `{f['signature']}` | {(f.get('what') or '')[:220].replace('|', '/')} |")
+print()
+fixed = []
+for pid in ALL:
+    pth = f"{V}/known_findings/{pid}.json"
+    if os.path.exists(pth):
+        fixed += [(f.get("commit", "?"), pid, f["signature"]) for f in json.load(open(pth))["findings"] if f.get("status") == "fixed"]
+print(f"Fixed findings recorded: {len(fixed)} entries over {len({c for c, _, _ in fixed})} distinct commits.")
